@@ -195,6 +195,8 @@ def _job(spec):
             "eko.quantities.heavy_quarks.MatchingScales": R._matching_scales,
             "eko.matchings.Atlas": R._atlas,
             "eko.matchings.nf_default": R.make_nf_default(cell),
+            "numpy.searchsorted": R.make_searchsorted(cell),
+            "numpy.digitize": R.make_digitize(cell),
             "time.time": lambda ev_: 0,
         }
         ev = S.Evaluator(proj, on_call=P.above_threshold_hook, on_compare=R.make_compare(True), lenient_ext=True, ext_calls=ext)
